@@ -223,9 +223,13 @@ type execResult struct {
 
 // execute runs G simultaneous executions of the directive.
 func execute(s *rt.Spec, scn *rt.Scenario, prop string) *execResult {
-	prog := rt.Lookup(s.Name)
+	return executeAs(s, scn, prop, s.Name)
+}
+
+func executeAs(s *rt.Spec, scn *rt.Scenario, prop, regName string) *execResult {
+	prog := rt.Lookup(regName)
 	if prog == nil {
-		panic("program not registered: " + s.Name)
+		panic("program not registered: " + regName)
 	}
 	g := scn.G
 	if g < 1 {
@@ -333,6 +337,21 @@ func hashBytes(b []byte) uint64 {
 func evaluate(s *rt.Spec, scn *rt.Scenario, prop string) (mine, other []rt.Finding, res *execResult) {
 	res = execute(s, scn, prop)
 	var all []rt.Finding
+	if prop == "C20" && res.hang == "" && res.inconclusive == "" && rt.Lookup(s.Name+"@mod") != nil {
+		// differential: the same scenario against the modifier-mode twin
+		res2 := executeAs(s, scn, prop, s.Name+"@mod")
+		switch {
+		case res2.hang != "":
+			all = append(all, rt.Finding{Prop: "C20", Msg: "the modifier-mode flow never returned"})
+		case res2.inconclusive != "":
+			res.inconclusive = res2.inconclusive
+		default:
+			all = append(all, rt.Differential(res.runs[0], res2.runs[0])...)
+			for _, f := range rt.Check(res2.runs[0]) {
+				all = append(all, rt.Finding{Prop: f.Prop, Msg: "modifier-mode code: " + f.Msg})
+			}
+		}
+	}
 	if res.hang != "" {
 		all = append(all, rt.Finding{Prop: "C05", Msg: "the directive never returned; every goroutine is blocked:\n" + res.hang})
 	} else if res.inconclusive == "" {
